@@ -418,7 +418,7 @@ def value_walk(e: ast.AST):
                     args = args[1:] if not recv_is_module else [args[0]] + args[2:]
                 elif fname == "where":
                     args = args[1:] if recv_is_module else args[1:]
-                elif fname in ("view", "reshape", "expand", "unsqueeze", "squeeze", "transpose", "flatten", "clamp",
+                elif fname in ("view", "reshape", "expand", "unsqueeze", "squeeze", "transpose", "flatten",
                                "sum", "repeat", "permute", "topk", "sort"):
                     args = [] if not recv_is_module else args[:1]
                 stack.extend(args)
